@@ -603,3 +603,137 @@ Proof.
     split; [right; vm_compute; lia | exact I].
   - split; vm_compute; reflexivity.
 Qed.
+
+(* ========================================================================== *)
+(* ROUND 2 — second audit (Proofs/MoreEq.v, Part G)                             *)
+(*  7. the ownership ledger of insert_unchecked within its WHOLE contract, as    *)
+(*     one statement:                      C18_insert_unchecked_acct             *)
+(*  8. histories that also contain get_disjoint_unchecked_mut calls under their   *)
+(*     contract: same results as the checked calls, in every reachable state:     *)
+(*       C18_step_w_refines, C18_run_w_refines, C18_run_w_eq_checked              *)
+(* ========================================================================== *)
+Require Import Proofs.Owned Proofs.ExecView.
+
+(* -------------------------------------------------------------------------- *)
+(* 7. Lawful ==, well-formed container, the contract in its specification-level
+   form "not full OR a key of the same class is stored", release or debug build:
+   insert_unchecked cannot panic (nor reach UB), keeps WF and the capacity, and
+   the ledger balances: [acct E w w' ins outs lost] is the permutation
+     stored after ++ handed back (the displaced old value) ++ lost ++ destroyed
+     after  =  stored before ++ handed in (k, v) ++ destroyed before;
+   from a tidy container nothing is lost and the container is tidy again.
+   (C18_conserves_insert_unchecked has the same ledger for "room or debug" only,
+   and allows a panic.) *)
+Theorem C18_insert_unchecked_acct :
+  forall (K V Q T : Type) (E : env K V Q T) (debug : bool) (ck : K -> N) (cq : Q -> N),
+    Lawful E ck cq ->
+    forall (k : K) (v : V) (w : world K V T),
+      WF (self w) ->
+      len (self w) < cap (self w) \/ (exists i : nat, find_idx ck (ck k) (Spec.elems (self w)) = Some i) ->
+      wp (insert_unchecked E debug k v)
+         (fun (r : option V) (w' : world K V T) =>
+            WF (self w') /\
+            cap (self w') = cap (self w) /\
+            (exists lost : list N,
+                acct E w w' (ids_pair E (k, v)) (match r with Some v0 => idV E v0 | None => [] end) lost /\
+                (Tidy (self w) -> lost = [] /\ Tidy (self w'))))
+         (fun _ : world K V T => False)
+         w.
+Proof. exact (@insert_unchecked_acct). Qed.
+Print Assumptions C18_insert_unchecked_acct.
+
+(* -------------------------------------------------------------------------- *)
+(* 8. Histories with BOTH kinds of unchecked calls.
+     wop                    WBase o (o : uop: one of the 13 dictionary operations
+                            or insert_unchecked, as in C18_run_u_refines) or
+                            WDisjoint unchecked ks (get_disjoint_unchecked_mut /
+                            get_disjoint_mut on the requested keys ks);
+     mstep_w                the model running it; for WDisjoint the observable
+                            result is what the returned references point to
+                            (read_opt_slots: the stored pair, or None, per key);
+     dstep_w ck cq n o d    the IDEAL dictionary: WDisjoint answers the association
+                            of each requested class (d_find), or panics when two
+                            requested classes coincide - whether the call is the
+                            checked or the unchecked one does not occur;
+     contract_w             insert_unchecked: as before; get_disjoint_unchecked_mut:
+                            "the requested keys are pairwise different"
+                            (NoDup (map cq ks)); nothing for the checked call;
+     erase_w                replaces every unchecked call by its checked twin.
+   From any state abstracting to an ideal dictionary (in particular the empty
+   container), a history whose unchecked calls meet their contracts refines the
+   ideal dictionary step by step (no UB; a panic exactly where the ideal run
+   panics, container untouched), has EXACTLY the results of the history with
+   every unchecked call replaced by the checked one, and both end in containers
+   abstracting to the same ideal dictionary with the same capacity.  (The final
+   callback states may differ: the checked disjoint call makes additional q == q'
+   comparisons; under a lawful == nothing observable depends on that.) *)
+Theorem C18_step_w_refines :
+  forall (K V Q T : Type) (E : env K V Q T) (debug : bool) (ck : K -> N) (cq : Q -> N),
+    Lawful E ck cq ->
+    forall (n : nat) (o : @wop K V Q) (w : world K V T) (d : list (K * V)),
+      Abs ck (self w) d ->
+      cap (self w) = n ->
+      contract_w ck cq n o d ->
+      match mstep_w E debug o w with
+      | Ok r w' =>
+          fst (dstep_w ck cq n o d) = r /\ Abs ck (self w') (snd (dstep_w ck cq n o d)) /\ cap (self w') = n
+      | Panic w' =>
+          fst (dstep_w ck cq n o d) = WR RPanic /\ snd (dstep_w ck cq n o d) = d /\ self w' = self w
+      | UB => False
+      end.
+Proof. exact (@step_w_refines). Qed.
+Print Assumptions C18_step_w_refines.
+
+Theorem C18_run_w_refines :
+  forall (K V Q T : Type) (E : env K V Q T) (debug : bool) (ck : K -> N) (cq : Q -> N),
+    Lawful E ck cq ->
+    forall (n : nat) (ops : list (@wop K V Q)) (w : world K V T) (d : list (K * V)),
+      Abs ck (self w) d ->
+      cap (self w) = n ->
+      contracts_w ck cq n ops d ->
+      mrun_w E debug ops w = drun_w ck cq n ops d /\
+      (exists wf : world K V T,
+          mfinal_w E debug ops w = Some wf /\ Abs ck (self wf) (dfinal_w ck cq n ops d) /\ cap (self wf) = n).
+Proof. exact (@run_w_refines). Qed.
+Print Assumptions C18_run_w_refines.
+
+Theorem C18_run_w_eq_checked :
+  forall (K V Q T : Type) (E : env K V Q T) (debug : bool) (ck : K -> N) (cq : Q -> N),
+    Lawful E ck cq ->
+    forall (n : nat) (ops : list (@wop K V Q)) (w : world K V T) (d : list (K * V)),
+      Abs ck (self w) d ->
+      cap (self w) = n ->
+      contracts_w ck cq n ops d ->
+      mrun_w E debug ops w = mrun_w E debug (List.map erase_w ops) w /\
+      (exists wf wf' : world K V T,
+          mfinal_w E debug ops w = Some wf /\
+          mfinal_w E debug (List.map erase_w ops) w = Some wf' /\
+          Abs ck (self wf) (dfinal_w ck cq n ops d) /\
+          Abs ck (self wf') (dfinal_w ck cq n ops d) /\ cap (self wf) = n /\ cap (self wf') = n).
+Proof. exact (@run_w_eq_checked). Qed.
+Print Assumptions C18_run_w_eq_checked.
+
+(* a history on an empty map of capacity 2 whose contracts hold everywhere:
+   unchecked insert (room), checked insert, unchecked disjoint access with the
+   pairwise different classes 6, 9, 5, unchecked insert of a present class on the
+   FULL map, checked disjoint access: results of the run, and of the run with
+   every unchecked call replaced by its checked twin *)
+Example C18_example_history_w :
+  let ops : list (@wop key vobj query) :=
+    [WBase (UInsertUnchecked (k_ 1 5) (v_ 2 7)); WBase (UBase (DInsert (k_ 3 6) (v_ 4 8)));
+     WDisjoint true [QCls 6; QCls 9; QCls 5];
+     WBase (UInsertUnchecked (k_ 9 6) (v_ 10 1)); WDisjoint false [QCls 5; QCls 6]] in
+  contracts_w kcls qcls 2 ops [] /\
+  mrun_w (env_map C18_sc0) false ops (w_of (new_map 2)) =
+    [WR RNone; WR RNone; WMany [Some (k_ 3 6, v_ 4 8); None; Some (k_ 1 5, v_ 2 7)];
+     WR (RVal (v_ 4 8)); WMany [Some (k_ 1 5, v_ 2 7); Some (k_ 3 6, v_ 10 1)]] /\
+  mrun_w (env_map C18_sc0) false (List.map erase_w ops) (w_of (new_map 2)) =
+  mrun_w (env_map C18_sc0) false ops (w_of (new_map 2)).
+Proof.
+  cbv zeta. split.
+  - cbn [contracts_w contract_w contract_u erase dstep_w snd].
+    split; [right; cbn; lia|]. split; [exact I|].
+    split; [vm_compute; repeat (constructor; [cbn [In]; intuition discriminate|]); constructor|].
+    split; [left; vm_compute; discriminate|]. split; exact I.
+  - split; vm_compute; reflexivity.
+Qed.
